@@ -489,7 +489,12 @@ def check_scene(sc, scene, active_lines, res, bump, wit):
                     nth = [k for k, x in enumerate(objs) if x.visible_from is not None].index(i) if role == "visible_from" else -1
                     blocked_by_range = min(go.gjk_bracket(view[None, :], Pp.V)[0] for Pp in worlds[i][0]) > dist
                     if role == "visible_from" and nth >= 1 and not blocked_by_range:
-                        key = "visibility.occluders-one-shot-iterator"
+                        # confirmed only if the requirement built for this (observer, target) really has an
+                        # empty occluder list although the program contains occluding objects
+                        scn = sc.get("scenario")
+                        vr = [r for r in (scn.defaultRequirements if scn is not None else ()) if type(r).__name__ == "VisibilityRequirement" and r.target is scn.objects[i] and r.source is scn.objects[obs]]
+                        if vr and all(len(r.potential_occluders) == 0 for r in vr):
+                            key = "visibility.occluders-one-shot-iterator"
                     viol(f"accepted scene: {o.name} must be visible from {objs[obs].name} ({role}, #{nth} in program order) but every sight line is blocked / it is out of range", key, obj=i, observer=obs)
                 if role == "not_visible_from" and ans is True:
                     viol(f"accepted scene: {o.name} must not be visible from {objs[obs].name} but it is in range with nothing in between", obj=i, observer=obs)
@@ -574,6 +579,7 @@ def run_scenario(seed, shard, index, res, bump, orderings, n_scenes=None):
                 return
     if scenario is None:
         return
+    sc["scenario"] = scenario
     bump("scenarios")
     bump(f"workspace.{sc['meta']['workspace']}")
     if len(res["samples"]) < 2:
